@@ -163,6 +163,51 @@ func c16Workload(g *rand.Rand, port int, dur time.Duration) int {
 	return total
 }
 
+// cold start: in a fresh process, several connections issue the SAME command at the same moment as the first
+// command of that kind the process has ever seen — the schedule that "parse once, cache for ever" code
+// (lazy initialisation without synchronisation) needs to show up; the long workload above never produces it,
+// because there the first INFO, COMMAND DOCS ... of the process comes from one connection
+func c16ColdStart(g *rand.Rand, port int) int {
+	const nc = 8
+	volleys := [][]string{{"INFO"}, {"INFO", "server"}, {"COMMAND", "DOCS", "get"}, {"COMMAND", "INFO", "set"}, {"COMMAND", "COUNT"}, {"COMMAND", "LIST"}, {"COMMAND", "DOCS"}, {"COMMAND", "INFO"},
+		{"CLIENT", "LIST"}, {"CLIENT", "INFO"}, {"HELLO", "3"}, {"DBSIZE"}, {"LCS", "a", "b"}, {"SORT", "l"}, {"BITFIELD", "b", "GET", "u8", "0"}, {"SET", "cs", "1", "EX", "100"}, {"INCRBYFLOAT", "fl", "1.5"},
+		{"HINCRBYFLOAT", "h", "f", "1.5"}, {"SCAN", "0"}, {"KEYS", "*"}, {"RANDOMKEY"}, {"OBJECT", "ENCODING", "cs"}, {"TYPE", "cs"}, {"CLIENT", "SETNAME", "x"}, {"CLIENT", "NO-EVICT", "on"},
+		{"COMMAND", "GETKEYS", "get", "a"}, {"SELECT", "3"}, {"MULTI"}, {"EXEC"}, {"WATCH", "a"}, {"BLPOP", "nolist", "0.01"}, {"SRANDMEMBER", "s"}, {"SPOP", "s"}, {"HRANDFIELD", "h"},
+		{"EXPIRE", "cs", "100"}, {"TTL", "cs"}, {"PING"}, {"ECHO", "x"}, {"TIME"}, {"nosuchcommand"}, {"GET"}, {"RESET"}, {"QUIT"}}
+	g.Shuffle(len(volleys)-2, func(i, j int) { volleys[i], volleys[j] = volleys[j], volleys[i] })
+	conns := make([]*Conn, 0, nc)
+	for i := 0; i < nc; i++ {
+		c, err := dial(port)
+		if err != nil {
+			break
+		}
+		conns = append(conns, c)
+	}
+	total := 0
+	for _, v := range volleys {
+		start := make(chan struct{})
+		var wg sync.WaitGroup
+		for _, c := range conns {
+			wg.Add(1)
+			go func(c *Conn) {
+				defer wg.Done()
+				raw := encodeCmd(bs(v...))
+				<-start
+				c.SendRaw(raw)
+				c.Read(2 * time.Second)
+			}(c)
+		}
+		time.Sleep(2 * time.Millisecond)
+		close(start)
+		wg.Wait()
+		total += len(conns)
+	}
+	for _, c := range conns {
+		c.Close()
+	}
+	return total
+}
+
 func runC16(cfg runCfg, res *Result) error {
 	g := rand.New(rand.NewSource(cfg.seed))
 	race := filepath.Join(filepath.Dir(os.Args[0]), "harness_race")
@@ -182,6 +227,38 @@ func runC16(cfg runCfg, res *Result) error {
 		res.KnownHits = map[string]int{}
 	}
 	all := map[string]string{}
+	collect := func(stderr string) {
+		for _, site := range parseRaces(stderr) {
+			all[site] = ""
+		}
+		if len(all) > 0 && res.Extra["first_report"] == nil {
+			res.Extra["first_report"] = tail(firstRace(stderr), 1800)
+		}
+		if !strings.Contains(stderr, "WARNING: DATA RACE") && strings.Contains(stderr, "panic:") {
+			all["process panic"] = tail(stderr, 600)
+		}
+	}
+	// fresh processes that only see the cold-start volleys, each in a different order
+	cold := 3
+	if cfg.tier == "thorough" {
+		cold = 12
+	}
+	os.Setenv("GORACE", "halt_on_error=0 history_size=3")
+	for k := 0; k < cold; k++ {
+		srv, err := startServer("")
+		if err != nil {
+			return err
+		}
+		n := c16ColdStart(g, srv.Port)
+		res.Extra["cold_start_commands"] = toInt(res.Extra["cold_start_commands"]) + n
+		res.Steps += n
+		srv.Ctl("CLOSE 0", 10*time.Second)
+		srv.Ctl("EXIT", 2*time.Second)
+		waitDead(srv, 3*time.Second)
+		stderr := srv.Stderr()
+		srv.Kill()
+		collect(stderr)
+	}
 	for r := 0; r < rounds; r++ {
 		dir, err := os.MkdirTemp("", "verif-c16-")
 		if err != nil {
@@ -207,7 +284,9 @@ func runC16(cfg runCfg, res *Result) error {
 				}
 			}
 		}()
-		n := c16Workload(g, srv.Port, dur)
+		n := c16ColdStart(g, srv.Port)
+		res.Extra["cold_start_commands"] = toInt(res.Extra["cold_start_commands"]) + n
+		n += c16Workload(g, srv.Port, dur)
 		close(saverStop)
 		<-saverDone
 		res.Steps += n
@@ -223,17 +302,7 @@ func runC16(cfg runCfg, res *Result) error {
 		stderr := srv.Stderr()
 		srv.Kill()
 		os.RemoveAll(dir)
-		for _, site := range parseRaces(stderr) {
-			idx := strings.Index(stderr, "WARNING: DATA RACE")
-			_ = idx
-			all[site] = ""
-		}
-		if len(all) > 0 && r == 0 {
-			res.Extra["first_report"] = tail(firstRace(stderr), 1800)
-		}
-		if !strings.Contains(stderr, "WARNING: DATA RACE") && strings.Contains(stderr, "panic:") {
-			all["process panic"] = tail(stderr, 600)
-		}
+		collect(stderr)
 	}
 	var sites []string
 	for s := range all {
